@@ -299,6 +299,10 @@ def seg_unit(v, seg, tier, res):
                 check_message_text(res, v, 'MSH', name, text, ec_n, fg, 'all-leaves-msh')
     for text in escape_texts(v, seg):
         check_segment_text(res, v, seg, text, 'escape-word', rank=3)
+        hostn = host_structure(v, seg) if seg != 'MSH' else None
+        if hostn and v >= '2.7':
+            ec4 = dict(refmodel.DEFAULT_EC)
+            check_message_text(res, v, seg, hostn, refmodel.enc_message([('MSH', msh_fields(v, hostn))], ec4) + '\r' + text, ec4, True, 'escape-word')
     if tier == 'thorough':
         thorough_extra(res, v, seg, rows, segtext)
     res.sample({'v': v, 'segment': seg, 'all_leaves_text': full[:200]}, cap=4)
@@ -442,6 +446,13 @@ def cross_unit(va, vb, res):
                 pass
         for text in escape_texts(vb, seg):
             check_segment_text(res, vb, seg, text, 'escape-word-after-v%s' % va, rank=3)
+            # the same leaf inside a message whose MSH-2 has four characters (from 2.7 the delimiter set of a message
+            # may or may not carry the truncation character)
+            hostn = host_structure(vb, seg)
+            if hostn:
+                ec4 = dict(refmodel.DEFAULT_EC)
+                mtext = refmodel.enc_message([('MSH', msh_fields(vb, hostn))], ec4) + '\r' + text
+                check_message_text(res, vb, seg, hostn, mtext, ec4, True, 'escape-word-after-v%s' % va)
     res.dims['cross-version pairs'] += 1
 
 
